@@ -215,11 +215,26 @@ def gen_jpeg(ctx, rng, nrng, n, notes):
                 variants.append(("valid", raw))
             elif r < 0.2:
                 variants.append(("random", random_bytes(rng, 200)))
-            elif r < 0.25:
+            elif r < 0.3:
                 # a well-formed image in another container
                 b = io.BytesIO()
-                PIL.Image.fromarray(arr.reshape(C, Z * Y, X)[0]).save(b, format=rng.choice(["png", "bmp", "gif"]))
-                variants.append(("other-format", b.getvalue()))
+                plane = arr.reshape(C, Z * Y, X)[0]
+                how = rng.choice(["png", "bmp", "gif", "png16", "tiff-float", "tiff16", "pbm", "pgm16", "png-bool"])
+                if how in ("png", "bmp", "gif"):
+                    PIL.Image.fromarray(plane).save(b, format=how)
+                elif how == "png16":       # single band, 16-bit samples, matching pixel count
+                    PIL.Image.fromarray(plane.astype(np.uint16) * 257).save(b, format="png")
+                elif how == "tiff-float":
+                    PIL.Image.fromarray(plane.astype(np.float32)).save(b, format="tiff")
+                elif how == "tiff16":
+                    PIL.Image.fromarray(plane.astype(np.uint16) * 257).save(b, format="tiff")
+                elif how == "png-bool":
+                    PIL.Image.fromarray(plane > 127).save(b, format="png")
+                elif how == "pbm":
+                    b.write(b"P4 %d %d\n" % (X, Z * Y) + bytes((X + 7) // 8 * Z * Y))
+                else:
+                    b.write(b"P5 %d %d 65535\n" % (X, Z * Y) + (plane.astype(">u2") * 257).tobytes())
+                variants.append(("other-format:" + how, b.getvalue()))
             else:
                 variants.append(mutate_bytes(rng, raw, ["truncate", "truncate", "byte", "bit", "multi",
                                                         "extend", "delete", "insert"]))
